@@ -139,55 +139,103 @@ func c12Session(kind string) string {
 // message claiming (sender, session) from key and reports whether the state
 // stored it.
 type c12ReceivePoint struct {
-	name  string
-	probe func(lm *LocalMember, sender group.MemberIndex, session string, key []byte) (acted bool, err error)
+	name string
+	// lateExclusion: the probe captures the members operating at phase start
+	// (as the state's Initiate does) BEFORE the case's IA/DQ marking is
+	// applied; such a sender is documented to be still accepted
+	// (shouldAcceptAccusationMessage).
+	lateExclusion bool
+	probe         func(lm *LocalMember, sender group.MemberIndex, session string, key []byte, mark func()) (acted bool, err error)
 }
 
 func c12ReceivePoints() []c12ReceivePoint {
 	return []c12ReceivePoint{
-		{"ephemeralKeyPairGenerationState/EphemeralPublicKeyMessage", func(lm *LocalMember, s group.MemberIndex, sess string, key []byte) (bool, error) {
+		{"ephemeralKeyPairGenerationState/EphemeralPublicKeyMessage", false, func(lm *LocalMember, s group.MemberIndex, sess string, key []byte, mark func()) (bool, error) {
+			mark()
 			st := &ephemeralKeyPairGenerationState{member: lm.InitializeEphemeralKeysGeneration()}
 			p := &EphemeralPublicKeyMessage{senderID: s, sessionID: sess}
 			err := st.Receive(&c12Msg{p, key})
 			return len(st.phaseMessages) == 1 && st.phaseMessages[0] == p, err
 		}},
-		{"commitmentState/PeerSharesMessage", func(lm *LocalMember, s group.MemberIndex, sess string, key []byte) (bool, error) {
+		{"commitmentState/PeerSharesMessage", false, func(lm *LocalMember, s group.MemberIndex, sess string, key []byte, mark func()) (bool, error) {
+			mark()
 			st := &commitmentState{member: lm.InitializeEphemeralKeysGeneration().InitializeSymmetricKeyGeneration().InitializeCommitting()}
 			p := &PeerSharesMessage{senderID: s, sessionID: sess}
 			err := st.Receive(&c12Msg{p, key})
 			return len(st.phaseSharesMessages) == 1 && st.phaseSharesMessages[0] == p, err
 		}},
-		{"commitmentState/MemberCommitmentsMessage", func(lm *LocalMember, s group.MemberIndex, sess string, key []byte) (bool, error) {
+		{"commitmentState/MemberCommitmentsMessage", false, func(lm *LocalMember, s group.MemberIndex, sess string, key []byte, mark func()) (bool, error) {
+			mark()
 			st := &commitmentState{member: lm.InitializeEphemeralKeysGeneration().InitializeSymmetricKeyGeneration().InitializeCommitting()}
 			p := &MemberCommitmentsMessage{senderID: s, sessionID: sess}
 			err := st.Receive(&c12Msg{p, key})
 			return len(st.phaseCommitmentsMessages) == 1 && st.phaseCommitmentsMessages[0] == p, err
 		}},
-		{"commitmentsVerificationState/SecretSharesAccusationsMessage", func(lm *LocalMember, s group.MemberIndex, sess string, key []byte) (bool, error) {
+		{"commitmentsVerificationState/SecretSharesAccusationsMessage", false, func(lm *LocalMember, s group.MemberIndex, sess string, key []byte, mark func()) (bool, error) {
+			mark()
 			st := &commitmentsVerificationState{member: lm.InitializeEphemeralKeysGeneration().InitializeSymmetricKeyGeneration().InitializeCommitting().InitializeCommitmentsVerification()}
 			p := &SecretSharesAccusationsMessage{senderID: s, sessionID: sess}
 			err := st.Receive(&c12Msg{p, key})
 			return len(st.phaseAccusationsMessages) == 1 && st.phaseAccusationsMessages[0] == p, err
 		}},
-		{"pointsShareState/MemberPublicKeySharePointsMessage", func(lm *LocalMember, s group.MemberIndex, sess string, key []byte) (bool, error) {
+		{"pointsShareState/MemberPublicKeySharePointsMessage", false, func(lm *LocalMember, s group.MemberIndex, sess string, key []byte, mark func()) (bool, error) {
+			mark()
 			st := &pointsShareState{member: lm.InitializeEphemeralKeysGeneration().InitializeSymmetricKeyGeneration().InitializeCommitting().
 				InitializeCommitmentsVerification().InitializeSharesJustification().InitializeQualified().InitializeSharing()}
 			p := &MemberPublicKeySharePointsMessage{senderID: s, sessionID: sess}
 			err := st.Receive(&c12Msg{p, key})
 			return len(st.phaseMessages) == 1 && st.phaseMessages[0] == p, err
 		}},
-		{"pointsValidationState/PointsAccusationsMessage", func(lm *LocalMember, s group.MemberIndex, sess string, key []byte) (bool, error) {
+		{"pointsValidationState/PointsAccusationsMessage", false, func(lm *LocalMember, s group.MemberIndex, sess string, key []byte, mark func()) (bool, error) {
+			mark()
 			st := &pointsValidationState{member: lm.InitializeEphemeralKeysGeneration().InitializeSymmetricKeyGeneration().InitializeCommitting().
 				InitializeCommitmentsVerification().InitializeSharesJustification().InitializeQualified().InitializeSharing()}
 			p := &PointsAccusationsMessage{senderID: s, sessionID: sess}
 			err := st.Receive(&c12Msg{p, key})
 			return len(st.phaseMessages) == 1 && st.phaseMessages[0] == p, err
 		}},
-		{"keyRevealState/MisbehavedEphemeralKeysMessage", func(lm *LocalMember, s group.MemberIndex, sess string, key []byte) (bool, error) {
+		{"keyRevealState/MisbehavedEphemeralKeysMessage", false, func(lm *LocalMember, s group.MemberIndex, sess string, key []byte, mark func()) (bool, error) {
+			mark()
 			st := &keyRevealState{member: lm.InitializeEphemeralKeysGeneration().InitializeSymmetricKeyGeneration().InitializeCommitting().
 				InitializeCommitmentsVerification().InitializeSharesJustification().InitializeQualified().InitializeSharing().
 				InitializePointsJustification().InitializeRevealing()}
 			p := &MisbehavedEphemeralKeysMessage{senderID: s, sessionID: sess}
+			err := st.Receive(&c12Msg{p, key})
+			return len(st.phaseMessages) == 1 && st.phaseMessages[0] == p, err
+		}},
+		// the two accusation states judge the sender against the members
+		// operating when the phase started (captured by Initiate)
+		{"commitmentsVerificationState/SecretSharesAccusationsMessage[phase-start set captured after marking]", false, func(lm *LocalMember, s group.MemberIndex, sess string, key []byte, mark func()) (bool, error) {
+			mark()
+			st := &commitmentsVerificationState{member: lm.InitializeEphemeralKeysGeneration().InitializeSymmetricKeyGeneration().InitializeCommitting().InitializeCommitmentsVerification()}
+			st.operatingAtPhaseStart = lm.group.OperatingMemberIndexes()
+			p := &SecretSharesAccusationsMessage{senderID: s, sessionID: sess}
+			err := st.Receive(&c12Msg{p, key})
+			return len(st.phaseAccusationsMessages) == 1 && st.phaseAccusationsMessages[0] == p, err
+		}},
+		{"commitmentsVerificationState/SecretSharesAccusationsMessage[sender excluded after phase start]", true, func(lm *LocalMember, s group.MemberIndex, sess string, key []byte, mark func()) (bool, error) {
+			st := &commitmentsVerificationState{member: lm.InitializeEphemeralKeysGeneration().InitializeSymmetricKeyGeneration().InitializeCommitting().InitializeCommitmentsVerification()}
+			st.operatingAtPhaseStart = lm.group.OperatingMemberIndexes()
+			mark()
+			p := &SecretSharesAccusationsMessage{senderID: s, sessionID: sess}
+			err := st.Receive(&c12Msg{p, key})
+			return len(st.phaseAccusationsMessages) == 1 && st.phaseAccusationsMessages[0] == p, err
+		}},
+		{"pointsValidationState/PointsAccusationsMessage[phase-start set captured after marking]", false, func(lm *LocalMember, s group.MemberIndex, sess string, key []byte, mark func()) (bool, error) {
+			mark()
+			st := &pointsValidationState{member: lm.InitializeEphemeralKeysGeneration().InitializeSymmetricKeyGeneration().InitializeCommitting().
+				InitializeCommitmentsVerification().InitializeSharesJustification().InitializeQualified().InitializeSharing()}
+			st.operatingAtPhaseStart = lm.group.OperatingMemberIndexes()
+			p := &PointsAccusationsMessage{senderID: s, sessionID: sess}
+			err := st.Receive(&c12Msg{p, key})
+			return len(st.phaseMessages) == 1 && st.phaseMessages[0] == p, err
+		}},
+		{"pointsValidationState/PointsAccusationsMessage[sender excluded after phase start]", true, func(lm *LocalMember, s group.MemberIndex, sess string, key []byte, mark func()) (bool, error) {
+			st := &pointsValidationState{member: lm.InitializeEphemeralKeysGeneration().InitializeSymmetricKeyGeneration().InitializeCommitting().
+				InitializeCommitmentsVerification().InitializeSharesJustification().InitializeQualified().InitializeSharing()}
+			st.operatingAtPhaseStart = lm.group.OperatingMemberIndexes()
+			mark()
+			p := &PointsAccusationsMessage{senderID: s, sessionID: sess}
 			err := st.Receive(&c12Msg{p, key})
 			return len(st.phaseMessages) == 1 && st.phaseMessages[0] == p, err
 		}},
@@ -197,7 +245,7 @@ func c12ReceivePoints() []c12ReceivePoint {
 func TestVerif_C12_Gjkr(t *testing.T) {
 	r := verifkit.Start(t, "C12", "gjkr")
 	defer r.Finish()
-	r.SetRule("exhaustive grid: seat layouts (5 seats over operators 2/2/1 interleaved, 3 seats one operator; thorough adds 9 seats 4/3/1/1) x receiver seat x claimed index {0,1..n,n+1,255} x sender key {each operator, outsider, truncated operator key, empty} x session {own, other, own+suffix} x claimed member status {operating, IA, DQ, sibling seat DQ}, for each of the 7 message-storing receive points of the GJKR states; non-trivial = claimed index not held by the sender key, or foreign session, or non-operating sender")
+	r.SetRule("exhaustive grid: seat layouts (5 seats over operators 2/2/1 interleaved, 3 seats one operator; thorough adds 9 seats 4/3/1/1) x receiver seat x claimed index {0,1..n,n+1,255} x sender key {each operator, outsider, truncated operator key, empty} x session {own, other, own+suffix} x claimed member status {operating, IA, DQ, sibling seat DQ}, for each of the 7 message-storing receive points of the GJKR states (the two accusation states additionally with the phase-start operating set captured before / after the exclusion); non-trivial = claimed index not held by the sender key, or foreign session, or non-operating sender")
 	r.Assume("local_v1 signing maps a public key to the hex of its bytes; operator keys are freshly generated secp256k1 keys (values do not enter the verdict)")
 
 	signing := local_v1.Connect(5, 3).Signing()
@@ -259,25 +307,31 @@ func TestVerif_C12_Gjkr(t *testing.T) {
 			if err != nil {
 				t.Fatal(err)
 			}
-			switch c.status {
-			case "IA":
-				lm.group.MarkMemberAsInactive(group.MemberIndex(c.claimed))
-			case "DQ":
-				lm.group.MarkMemberAsDisqualified(group.MemberIndex(c.claimed))
-			case "siblingDQ":
-				for _, s := range c12Siblings(c) {
-					lm.group.MarkMemberAsDisqualified(group.MemberIndex(s))
+			mark := func() {
+				switch c.status {
+				case "IA":
+					lm.group.MarkMemberAsInactive(group.MemberIndex(c.claimed))
+				case "DQ":
+					lm.group.MarkMemberAsDisqualified(group.MemberIndex(c.claimed))
+				case "siblingDQ":
+					for _, s := range c12Siblings(c) {
+						lm.group.MarkMemberAsDisqualified(group.MemberIndex(s))
+					}
 				}
 			}
 			var got bool
 			var rerr error
 			if r.Guard("gjkr:"+rp.name+":", desc, func() {
-				got, rerr = rp.probe(lm, group.MemberIndex(c.claimed), c12Session(c.session), c.key.pub)
+				got, rerr = rp.probe(lm, group.MemberIndex(c.claimed), c12Session(c.session), c.key.pub, mark)
 			}) {
 				continue
 			}
 			legit, why := c12Expect(c)
-			r.Case(desc, !legit)
+			if rp.lateExclusion && why == "sender-excluded" {
+				// excluded only after the phase started: documented as accepted
+				legit, why = true, ""
+			}
+			r.Case(desc, !legit || rp.lateExclusion && (c.status == "IA" || c.status == "DQ"))
 			if rerr != nil {
 				r.Violation("gjkr:"+rp.name+":receive-error", "Receive returned an error: "+rerr.Error(), desc, nil)
 			}
@@ -305,7 +359,8 @@ func TestVerif_C12_Gjkr(t *testing.T) {
 			r.Inconclusive("no legitimate case generated for " + rp.name)
 		}
 	}
-	r.Count("receive_points", int64(len(rps)))
+	r.Count("receive_points", 7)
+	r.Count("receive_point_variants", int64(len(rps)))
 	r.Count("grid_cases_per_receive_point", int64(len(grid)))
 	r.Count("acted_on", acted)
 	r.Count("ignored", rejected)
